@@ -555,6 +555,44 @@ def r5(ctx):
     ctx.emit('C17-R5', bool(sz), BINNING, l, 'chunk size accumulates the bin length', key='chunk-size', nontrivial=False)
 
 
+def bin_source(ctx, rid):
+    """the bins of a gap [current, start) come from fill_range(current, start, local_bin_size) - full steps plus the remainder step - so the
+    last bin ends at the gap end.  A fixed number of equal steps (`for k in range(count): lo = gap_start + k * size`) with size = floor(gap /
+    count) stops short of the gap end whenever the gap is not a multiple of count, unless a tail step is emitted after the loop."""
+    f = ctx.fn(BINCOUNTS, FN)
+    outer = [l for l in f.body if isinstance(l, ast.For)]
+    if len(outer) != 1:
+        raise AnalysisError('blacklisted_binning: outer loop not found')
+    inner_fr = [l for l in walk_no_nested(outer[0]) if isinstance(l, ast.For) and l is not outer[0] and 'fill_range' in src(l.iter)]
+    ys = [y for y in walk_no_nested(outer[0]) if isinstance(y, ast.Yield)]
+    if inner_fr:
+        inside = all(any(y is x for l in inner_fr for x in walk_no_nested(l)) for y in ys)
+        ctx.emit(rid, inside, BINCOUNTS, inner_fr[0], 'bins are the steps of fill_range over the gap (remainder step included)' if inside else
+                 'some bins are yielded outside the fill_range loop', key='bins-from-fill-range', nontrivial=False)
+        return
+    counted = [l for l in walk_no_nested(outer[0]) if isinstance(l, ast.For) and l is not outer[0] and isinstance(l.iter, ast.Call) and dotted(l.iter.func) == 'range'
+               and any(isinstance(y, ast.Yield) for y in walk_no_nested(l))]
+    if not counted:
+        ctx.emit(rid, False, BINCOUNTS, outer[0], 'how the bins of a gap are laid out was not recognised', key='bins-from-fill-range', undecided=True)
+        return
+    l = counted[0]
+    body_after = outer[0].body
+    tail = [y for y in ys if not any(y is x for x in walk_no_nested(l))]
+    step_names = {n_ for y in walk_no_nested(l) if isinstance(y, ast.Yield) for n_ in names_in(y)}
+    floor_sized = any(isinstance(s_, ast.Assign) and isinstance(s_.value, (ast.Call, ast.BinOp)) and ('int(' in src(s_.value) or '//' in src(s_.value)) and '/' in src(s_.value)
+                      for s_ in walk_no_nested(outer[0]) if isinstance(s_, ast.Assign))
+    ok = bool(tail) or not floor_sized
+    ctx.emit(rid, ok, BINCOUNTS, l, 'bins are laid out by a counted loop with a tail step' if ok else
+             f'bins are laid out as `{src(l.iter)}` equal steps of floor(gap / count) with no remainder step: when the gap is not a multiple of the count its last bases belong to no bin '
+             '(molecules with a site there are written by no job)', key='bins-from-fill-range', undecided=ok and not tail,
+             what='blacklisted_binning: the bins of a gap do not reach the gap end')
+
+
+@rule('C17', 'C17-R6', 'the bins of a gap reach the gap end: they are the steps of fill_range (full steps plus the remainder step)')
+def r6(ctx):
+    bin_source(ctx, 'C17-R6')
+
+
 META = {
     'text': ('Decides: the overlap test used to trim the blacklist equals true half-open interval overlap on every ordering of (s,e,start,end) '
              '(all Allen relations), trimmed ranges are clamped to the region on both sides, overlapping ranges are merged to their union; the fetch '
